@@ -208,6 +208,19 @@ def load_function(path, qual):
     parts = [p for p in qual.split(".") if p != "<locals>"]
     lam = None
     cut = None
+    if parts and parts[-1].startswith("<dispatch:"):
+        # <dispatch:GENERIC/TYPE>: the implementation registered with `@GENERIC.register` whose first parameter is annotated TYPE
+        generic, ann = parts.pop()[10:-1].split("/", 1)
+        for p in parts:
+            node = next(c for c in ast.walk(node) if isinstance(c, (ast.FunctionDef, ast.ClassDef)) and c.name == p)
+        hits = [c for c in ast.walk(node) if isinstance(c, ast.FunctionDef) and c.args.args and c.args.args[0].annotation is not None
+                and ast.unparse(c.args.args[0].annotation) == ann
+                and any(ast.unparse(d) in (f"{generic}.register", f"{generic}.register({ann})") for d in c.decorator_list)]
+        if len(hits) != 1:
+            raise LookupError(f"{path}::{qual}: {len(hits)} implementations of {generic} registered for {ann} in the current working tree")
+        node = hits[0]
+        h = hashlib.sha256(ast.dump(node).encode()).hexdigest()[:16]
+        return node, h
     if parts and parts[-1].startswith("<from:"):
         cut = parts.pop()[6:-1]          # <from:NAME>: the statements of the function from the first top-level assignment to NAME to the end
     if parts and parts[-1].startswith("<op:"):
